@@ -32,6 +32,58 @@ pub fn eval_family(case: &FamCase, obs: &mut CaseObs, prop: &str) -> Verdict {
     }
 }
 
+/// C05 on the (large) families: the uninterrupted run gives the number K of cutoff polls; the run is then
+/// repeated with the cutoff firing at a sample of poll indices (the generated fractions of K, plus 1 and K).
+#[derive(Clone, Debug, serde::Serialize, serde::Deserialize)]
+pub struct FamCutCase {
+    pub case: FamCase,
+    pub picks: Vec<u16>,
+}
+pub fn eval_family_cutoffs(c: &FamCutCase, obs: &mut CaseObs) -> Verdict {
+    let full = run_family(&c.case, &RunOpts::default());
+    if let Err(e) = &full.oracle_check {
+        return Verdict::HarnessError(e.clone());
+    }
+    if full.out.panic.is_some() || full.out.exhausted {
+        return Verdict::Pass; // C01 / C03 business
+    }
+    let k = full.out.polls.max(1);
+    obs.label(format!("family:{}", family_name(&c.case.fam)));
+    obs.label(if c.case.threads.is_some() { "solver:parallel(real threads)" } else { "solver:sequential" });
+    let opt = full.opt.unwrap_or(isize::MIN);
+    let mut ks: Vec<usize> = c.picks.iter().map(|p| 1 + (*p as usize * k) / 65_536).collect();
+    ks.push(1);
+    ks.push(k);
+    ks.sort();
+    ks.dedup();
+    obs.evals = ks.len() as u64;
+    for fire in ks {
+        let r = run_family(&c.case, &RunOpts { fire_at: Some(fire), ..Default::default() });
+        let out = &r.out;
+        if let Some(p) = &out.panic {
+            return Verdict::Fail(format!("cutoff at poll {fire} of {k}: panic {p}"));
+        }
+        if out.exhausted {
+            return Verdict::Fail(format!("cutoff at poll {fire} of {k}: the run does not terminate [{:?}]", out));
+        }
+        if out.fired && out.lb > isize::MIN && out.ub < isize::MAX && out.lb < out.ub {
+            obs.nontrivial = true;
+        }
+        if !(out.lb <= opt && opt <= out.ub) {
+            return Verdict::Fail(format!("cutoff at poll {fire} of {k}: bounds [{}, {}] do not contain the true optimum {:?} [{:?}]", out.lb, out.ub, full.opt, out));
+        }
+        if let Err(e) = &r.solution_check {
+            return Verdict::Fail(format!("cutoff at poll {fire} of {k}: {e} [{:?}]", out));
+        }
+        if let Some(comp) = &out.completion {
+            if comp.is_exact && comp.best_value != full.opt {
+                return Verdict::Fail(format!("cutoff at poll {fire} of {k}: is_exact but value {:?} is not the optimum {:?}", comp.best_value, full.opt));
+            }
+        }
+    }
+    Verdict::Pass
+}
+
 /// C15: the same model solved with the pooled diagram and with both plain diagrams
 pub fn eval_c15_family(case: &FamCase, obs: &mut CaseObs) -> Verdict {
     let mut results = vec![];
@@ -132,6 +184,10 @@ pub fn def_c15() -> PropDef {
             let cases = ctx.tier.pick(20_000, 200_000);
             let strat = fam_case_strategy(vec![1, 2], vec![DdKind::Pooled], true);
             ctx.pt_run("setpack-and-lcs", cases, strat, |c| serde_json::to_value(c).unwrap(), eval_c15_family);
+            // larger instances of the same two families: hundreds of sub-problems, states lingering over many layers
+            let cases = ctx.tier.pick(1_200, 15_000);
+            let strat = fam_case_strategy(vec![11, 12], vec![DdKind::Pooled], true);
+            ctx.pt_run("setpack-and-lcs-large", cases, strat, |c| serde_json::to_value(c).unwrap(), eval_c15_family);
         },
         replay: |part, case, _| {
             if part == "table-irrelevance" || case.get("solve").is_some() {
